@@ -216,6 +216,7 @@ def r03_3(ctx, run, rule='R03.3'):
             groups.setdefault(key, {})[enabled] = (seq, calls)
     loc = f'{b.file}:{b.line}'
     bad = []
+    unread = []
     for key, g in groups.items():
         if True not in g or False not in g:
             continue
@@ -231,13 +232,20 @@ def r03_3(ctx, run, rule='R03.3'):
                     out += '<dyn>'
             return out
         if strip(ps) != strip(cs):
-            bad.append(f'pretty pushes {strip(ps)!r} where compact pushes {strip(cs)!r}')
+            if strip(ps).replace('<dyn>', '') == strip(cs).replace('<dyn>', '') and strip(ps).count('<dyn>') > strip(cs).count('<dyn>'):
+                # the pretty rendering pushes additional strings this rule cannot read (an indentation helper under another name?)
+                unread.append(f'pretty pushes {strip(ps)!r} where compact pushes {strip(cs)!r}')
+            else:
+                bad.append(f'pretty pushes {strip(ps)!r} where compact pushes {strip(cs)!r}')
         if any(k == 'indent' for k, s in cs) or any(k == 'c' and s and any(ch in ' \n\r\t' for ch in s) for k, s in cs):
             bad.append('the compact rendering pushes whitespace')
         if pc != cc:
             bad.append(f'pretty calls {pc} where compact calls {cc}')
     if bad:
         run.violation(rule, b.path, 'pretty-vs-compact', '; '.join(sorted(set(bad))[:3]), loc)
+    elif unread:
+        run.undecided(rule, b.path, 'pretty-vs-compact', 'the pretty rendering pushes extra non-constant strings whose content this rule does not read (' + unread[0] +
+                      '): whether they are whitespace only is not decided', loc)
     else:
         run.proved(rule, b.path, 'pretty-vs-compact', f'{n} path pairs differing only in the pretty flag push the same non-whitespace constants and make the same nested calls', loc)
     run.floor(rule, 'path pairs differing only in pretty_opts.enabled', n, 6)
